@@ -223,6 +223,17 @@ func init() {
 		return []string{n}
 	})
 
+	// ---- constructors of library objects: never nil
+	nonNil := func(name string) {
+		def(name, modelEffect{allocates: true}, func(g *gen, st *state, c *ssa.CallCommon, a []string, in ssa.Instruction) []string {
+			r := g.newRef(st, "lib")
+			return []string{r}
+		})
+	}
+	for _, n := range []string{"bytes.NewBuffer", "bytes.NewBufferString", "bufio.NewWriter", "bufio.NewReader", "bufio.NewScanner", "strings.NewReader", "bytes.NewReader", "regexp.MustCompile"} {
+		nonNil(n)
+	}
+
 	// ---- sort: calls back into Len/Less/Swap of the argument; assumed to permute the argument's elements and
 	// to leave every document node alone (the yq implementations of Less are verified separately)
 	sortModel := func(g *gen, st *state, c *ssa.CallCommon, a []string, in ssa.Instruction) []string {
@@ -298,6 +309,19 @@ func init() {
 		e := g.newConst("err", "Iface")
 		g.assert(sNot(sEq(app("i.typ", e), "0")))
 		return []string{e}
+	})
+	def("errors.Is", none, func(g *gen, st *state, c *ssa.CallCommon, a []string, in ssa.Instruction) []string {
+		// errors.Is(nil, target) is false for a non-nil target; nothing else is assumed
+		r := g.newConst("errIs", "Bool")
+		if u, ok := c.Args[1].(*ssa.UnOp); ok {
+			if gl, ok := u.X.(*ssa.Global); ok && gl.Pkg != nil && !g.P.isYq(gl.Pkg.Pkg.Path()) {
+				// sentinel errors of libraries (io.EOF, ...) are never nil
+				g.assert(sNot(sEq(app("i.typ", a[1]), "0")))
+				g.P.usedAssumption("library sentinel error " + gl.String() + " is non-nil")
+			}
+		}
+		g.assert(sImp(sAnd(sEq(app("i.typ", a[0]), "0"), sNot(sEq(app("i.typ", a[1]), "0"))), sNot(r)))
+		return []string{r}
 	})
 	def("errors.New", modelEffect{allocates: true}, func(g *gen, st *state, c *ssa.CallCommon, a []string, in ssa.Instruction) []string {
 		e := g.newConst("err", "Iface")
